@@ -63,7 +63,12 @@ IntegrateWF(e) ==
   /\ MDeg(e.alpha) + ExtraDegree(e) <= e.order                        \* the promise of the property applies
   /\ e.oracle \in {"cells", "box", "sq"}
   /\ e.oracle = "cells" => FacetsRational(e)
-  /\ e.oracle = "sq" => e.dom = "facets" /\ e.scale ^ (2 * (MDeg(e.alpha) + EntDim(e))) <= 65536
+  /\ e.oracle = "sq" => /\ e.dom = "facets" /\ e.scale ^ (2 * (MDeg(e.alpha) + EntDim(e))) <= 65536
+                         \* bounds that keep the per-facet square oracle 32-bit safe
+                         /\ \A k \in DOMAIN e.ents :
+                              LET S == FacetSimplices(Pts(e, e.ents[k])) J2 == SimplexJacSq(S[1]) IN
+                              /\ J2 <= 32768 /\ \A s \in DOMAIN S : SimplexJacSq(S[s]) = J2
+                              /\ IPow(Max2(MaxAbsCoord(e.p), 1), 2 * MDeg(e.alpha)) * J2 <= 67108864
   /\ IPow(Max2(MaxAbsCoord(e.p), 1), MDeg(e.alpha) + MeshDim(e.kind)) < 1073741824 \div 64
   /\ e.oracle \in {"cells", "sq"} => MDeg(e.alpha) + EntDim(e) <= 8
   /\ e.scale ^ (MDeg(e.alpha) + EntDim(e)) <= 65536
@@ -113,8 +118,7 @@ IntegrateVerdicts(e) ==
                   r    == Unscale(FxRat(Nn, Fact(n)), e.scale, n)
                   w2   == FxMulSmall(FxSq(r), J2)
                   g2   == FxSq(e.evals[k])
-              IN /\ J2 <= 32768 /\ \A s \in DOMAIN S : SimplexJacSq(S[s]) = J2
-                 /\ FxMulOK(r) /\ FxMulOK(e.evals[k])
+              IN /\ FxMulOK(e.evals[k])
                  /\ FxNear(g2, w2, TolScaled(TolSum, 4 * (1 + w2[1])))
                  /\ Nn > 0 => FxLeq(FxNeg(FxUlp(4)), e.evals[k])
                  /\ Nn < 0 => FxLeq(e.evals[k], FxUlp(4))])
@@ -134,13 +138,13 @@ MassSumsToMeasure(e) == FxNear(e.val, MeasureOracle(e), TolScaled(TolSum, 16 * M
 \* exact entries of P0-P2 on affine simplices, assembled through the element's own DOF table
 EntriesWF(e) ==
   /\ GeometryWF(e) /\ e.dom = "cells" /\ e.kind \in {"line", "tri", "tet"} /\ e.scale = 1
-  /\ e.deg \in 0..2 /\ e.form \in {"mass", "laplace", "load"} /\ e.N \in 1..80
+  /\ e.deg \in 0..2 /\ e.form \in {"mass", "laplace", "load", "loadx"} /\ e.N \in 1..80
   /\ Len(e.edofs) = Len(e.ents)
   /\ \A k \in DOMAIN e.edofs : Len(e.edofs[k]) = Len(e.lnodes) /\ \A i \in DOMAIN e.edofs[k] : e.edofs[k][i] \in 1..e.N
   /\ {e.lnodes[i] : i \in DOMAIN e.lnodes} = LagrangeNodes(NNodesOf(e.kind), e.deg)
   /\ Len(e.lnodes) = Cardinality(LagrangeNodes(NNodesOf(e.kind), e.deg))
   /\ \A r \in DOMAIN e.vals : Len(e.vals[r]) = 2 + NL /\ FxWF(SubSeq(e.vals[r], 3, 2 + NL))
-  /\ IF e.form = "load"
+  /\ IF e.form \in {"load", "loadx"}
      THEN {<<e.vals[r][1], e.vals[r][2]>> : r \in DOMAIN e.vals} = (1..e.N) \X {0} /\ Len(e.vals) = e.N
      ELSE {<<e.vals[r][1], e.vals[r][2]>> : r \in DOMAIN e.vals} = (1..e.N) \X (1..e.N) /\ Len(e.vals) = e.N * e.N
 TolEntries == FxMulSmall(TolSum, 64)
@@ -158,6 +162,10 @@ EntriesExact(e) ==
                  QMul(PIntegral(PMul(lag[i].num, lag[j].num)), Q(1, lag[i].den * lag[j].den))], nl)], nl)
       refL == IF e.form # "load" THEN <<>> ELSE
               Materialize([i \in 1..nl |-> QMul(PIntegral(lag[i].num), Q(1, lag[i].den))], nl)
+      \* load vector of the datum f(x) = x_1 = sum_j lambda_j v_j[1]:  int lambda_j phi_i  on the reference simplex
+      refX == IF e.form # "loadx" THEN <<>> ELSE
+              Materialize([j \in 1..m |-> Materialize([i \in 1..nl |->
+                 QMul(PIntegral(PMul(PLin(m, j, 1, 0), lag[i].num)), Q(1, lag[i].den))], nl)], m)
       refG == IF e.form # "laplace" THEN <<>> ELSE
               Materialize([i \in 1..nl |-> Materialize([j \in 1..nl |->
                  Materialize([r \in 1..m |-> Materialize([s \in 1..m |->
@@ -169,6 +177,8 @@ EntriesExact(e) ==
       local(k, i, j) ==
         CASE e.form = "mass"    -> FxMulSmall(FxOfQ(refM[i][j]), dets[k])
           [] e.form = "load"    -> FxMulSmall(FxOfQ(refL[i]), dets[k])
+          [] e.form = "loadx"   -> FxMulSmall(FxSumAll([v \in 1..m |->
+                                       FxMulSmall(FxOfQ(refX[v][i]), e.p[e.ents[k][v]][1])]), dets[k])
           [] e.form = "laplace" ->
                FxOfQ(QMul(QSumAll(FlattenSeq([r \in 1..m |-> [s \in 1..m |->
                                QMul(QInt(gg[k][r][s]), refG[i][j][r][s])]])), Q(1, dets[k])))
@@ -177,7 +187,7 @@ EntriesExact(e) ==
         LET hs == SetToSeq(UNION {{<<k, i, j>> : i \in locs[k][I], j \in (IF J = 0 THEN {1} ELSE locs[k][J])} : k \in 1..ne})
         IN FxSumAll([h \in DOMAIN hs |-> local(hs[h][1], hs[h][2], hs[h][3])])
   IN \* the tables are demanded here, one after the other, so that each is built at shallow evaluation depth
-     /\ Len(lag) = nl /\ Len(dl) = nl /\ Len(refM) >= 0 /\ Len(refL) >= 0 /\ Len(refG) >= 0
+     /\ Len(lag) = nl /\ Len(dl) = nl /\ Len(refM) >= 0 /\ Len(refL) >= 0 /\ Len(refX) >= 0 /\ Len(refG) >= 0
      /\ Len(dets) = ne /\ Len(gg) >= 0 /\ Len(locs) = ne
      /\ \A r \in DOMAIN e.vals :
           FxNear(SubSeq(e.vals[r], 3, 2 + NL), exact(e.vals[r][1], e.vals[r][2]), TolEntries)
